@@ -50,6 +50,7 @@ std::string plan_to_json(const Plan &p, bool pretty) {
 	         p.p_num, p.p_den, p.park_site, p.park_num, p.park_den, p.audit_every, p.replay ? "true" : "false"); s += buf;
 	if (p.items) { snprintf(buf, sizeof buf, ",\"items\":%llu", (unsigned long long)p.items); s += buf; }
 	if (p.fullmem_model) s += ",\"fullmem_model\":true";
+	if (p.cold) s += ",\"cold\":true";
 	if (p.warmup_seed) { snprintf(buf, sizeof buf, ",\"warmup_seed\":%llu", (unsigned long long)p.warmup_seed); s += buf; }
 	if (!p.note.empty()) s += ",\"note\":\"" + rt::json_escape(p.note) + "\"";
 	auto blobs = [&](const char *name, const std::vector<Blob> &v) {
@@ -104,6 +105,7 @@ bool plan_from_json(const rt::JVal &j, Plan &p, std::string &err) {
 	p.audit_every = (int)j.num("audit_every");
 	p.items = j.u64("items");
 	p.warmup_seed = j.u64("warmup_seed");
+	if (auto r = j.get("cold")) p.cold = r->t == rt::JVal::BOOL && r->b;
 	if (auto r = j.get("fullmem_model")) p.fullmem_model = r->t == rt::JVal::BOOL && r->b;
 	if (auto r = j.get("replay")) p.replay = r->t == rt::JVal::BOOL && r->b;
 	p.note = j.str("note");
